@@ -1077,6 +1077,30 @@ func c16Rows(t *testing.T, db *gorm.DB) (rows []c16Row, seed string, ts int) {
 	return rows, svc.Seed, svc.LastLamportTimestamp
 }
 
+// admissibleNow: the reference predicate accepts the presentation in the current state of the current service's list and
+// it is not a repetition of a listed (signer, id) pair. Such a presentation would be accepted and change the list.
+func (w *c16World) admissibleNow(vp *c16VP) bool {
+	pre, _, _ := w.serverRows()
+	listed := func(signer string) string {
+		for _, r := range pre {
+			if r.Signer == signer {
+				return r.ID
+			}
+		}
+		return ""
+	}
+	ok, _ := w.e.ref(vp.Facts, w.e.now(), listed)
+	if !ok {
+		return false
+	}
+	for _, r := range pre {
+		if r.Signer == vp.Facts.Signer && r.ID == vp.Facts.ID && vp.Facts.ID != "" {
+			return false
+		}
+	}
+	return true
+}
+
 func (w *c16World) partyName(did string) string {
 	if p := w.e.byDID[did]; p != nil {
 		return p.name
@@ -1406,8 +1430,10 @@ func (w *c16World) apply(ev c16Event) {
 			return
 		}
 		p := e.subjects[ev.S]
-		w.submit(e.buildVP(c16VPOpt{Signer: p, ID: other.VP.Facts.ID, ExpIn: c16Long,
-			Creds: []string{e.cred(c16CredOpt{Type: "TestCredential", Subject: p})}}), "registration under the id of another subject's entry", true)
+		if w.submit(e.buildVP(c16VPOpt{Signer: p, ID: other.VP.Facts.ID, ExpIn: c16Long,
+			Creds: []string{e.cred(c16CredOpt{Type: "TestCredential", Subject: p})}}), "registration under the id of another subject's entry", true) {
+			e.r.Outcome("event:regdup:accepted")
+		}
 	case "retractx":
 		// a retraction by S of its OWN entry whose iss / sub claims name another subject (nothing ties the claims of a
 		// credential-less presentation to the signing key: the signer is who counts)
@@ -1416,8 +1442,10 @@ func (w *c16World) apply(ev c16Event) {
 			return
 		}
 		o := e.subjects[(ev.S+1)%w.cfg.K]
-		w.submit(e.buildVP(c16VPOpt{Signer: e.subjects[ev.S], ExpIn: c16Long, Types: []string{c16RetractType},
-			Extra: map[string]any{"retract_jti": en.VP.Facts.ID, "iss": o.did, "sub": o.did}}), "retraction by the signer that names another subject", true)
+		if w.submit(e.buildVP(c16VPOpt{Signer: e.subjects[ev.S], ExpIn: c16Long, Types: []string{c16RetractType},
+			Extra: map[string]any{"retract_jti": en.VP.Facts.ID, "iss": o.did, "sub": o.did}}), "retraction by the signer that names another subject", true) {
+			e.r.Outcome("event:retractx:accepted")
+		}
 	case "replay":
 		vp := w.prev[ev.S]
 		if vp == nil {
@@ -2165,6 +2193,12 @@ func (w *c16World) offerDefects() int {
 			if vp == nil {
 				continue
 			}
+			if w.admissibleNow(vp) {
+				// in this state the "defective" presentation is an ordinary admissible one (e.g. a retraction by another
+				// subject of an id that, after an id collision, is ALSO the id of that subject's own entry): not a self-loop
+				w.e.stats["defects_admissible_in_this_state_not_offered"]++
+				continue
+			}
 			n++
 			w.submit(vp, d.Label, false)
 			w.e.r.Eval("defect|" + d.Label + "|" + w.canon)
@@ -2189,8 +2223,10 @@ func (w *c16World) offerDefects() int {
 			}
 		})
 	}
-	if !w.dirty {
-		n += w.offerFamilies(light) // the generated families (zz_verif_c16_families_test.go)
+	if !w.dirty && os.Getenv("C16_NOFAM") == "" {
+		// the generated families (zz_verif_c16_families_test.go): their shallow-state subsets in the states of depth <= 2
+		// (thorough: <= 3), their per-state representatives in every deeper state; the full products are the grid part
+		n += w.offerFamilies(len(w.hist) > 2 && !(w.e.r.Thorough() && len(w.hist) <= 3))
 	}
 	return n
 }
@@ -2304,7 +2340,12 @@ func TestVerifC16BFS(t *testing.T) {
 		"in every new state the defective-registration alphabet (32 kinds of defective registration / retraction incl. iss/kid disagreement, 6 two-credential expiry combinations on a second service whose definition has two input descriptors, plus 12 generic defects applied to a retraction " +
 		"of each subject's listed entry and 11 to a retraction of an unlisted id; quick tier: at the deepest level only the kinds whose " +
 		"handling reads the list or that are tried per subject, plus 3 representatives) is offered to the server (self-loop transitions), the " +
-		"client's Search is judged (poll events carry the resolution of the client's map-order nondeterminism, all resolutions enumerated), and a fair suffix of polls must end with Search == server live set. The BFS prefix to the split depth " +
+		"client's Search is judged (poll events carry the resolution of the client's map-order nondeterminism, all resolutions enumerated), and a fair suffix of polls must end with Search == server live set. " +
+		"Four GENERATED families are offered as well (only the members the reference predicate refuses in that state; shallow-state subsets at depth <= 2 (thorough 3), per-state representatives deeper; full products in part grid): " +
+		"multi-credential registrations over a grid of validity instants on services asking for 1/2/3 credentials; retractions of every listed entry signed by ANOTHER party × iss × sub × retract_jti × kid form; " +
+		"registrations signed by one party whose kid/iss/sub/credentials/id name another; presentations made for service X offered to service Y. Configurations owners-* add the events regdup(s) (a valid registration under the id of another " +
+		"subject's entry) and retractx(s) (own retraction naming another subject). At EVERY transition: an accepted presentation leaves every other subject's entry as it was and is filed under the subject whose key signed it; " +
+		"in every state every listed entry is filed under the party that signed it. The BFS prefix to the split depth " +
 		"is shared; below it the frontier is dealt over the workers, whose seen-sets are private (state counts are per worker).")
 	r.Assume("go-did parsing, jwx, gorm/SQLite are trusted; did:jwk/did:key resolution is exercised, not modelled")
 	r.Assume("the virtual clock replaces every clock read of discovery/{module,store,client}.go and vcr/verifier/{verifier,signature_verifier}.go")
@@ -2623,6 +2664,9 @@ func TestVerifC16Sched(t *testing.T) {
 					per[row.Signer]++
 					if per[row.Signer] > 1 {
 						viol("C16|sched|more-than-one-entry-per-subject", "two entries of one subject after concurrent registrations")
+					}
+					if f := e.facts(row.Raw); f.Signer != row.Signer || !f.SigOK {
+						viol("C16|sched|entry-filed-under-a-subject-that-did-not-sign-it", "after concurrent registrations the list holds an entry filed under another subject than its signer")
 					}
 					if seenTs[row.Ts] || row.Ts > ts {
 						viol("C16|sched|timestamp-not-increasing", "two concurrent registrations share a timestamp, or an entry is ahead of the service timestamp")
